@@ -59,6 +59,15 @@ def _first_diff(a, b, path=()):
     return None if a == b else (list(path), a, b)
 
 
+def _typed(x):
+    """Scalar leaves as (type name, repr): 1, 1.0 and True are different values of a configuration."""
+    if isinstance(x, dict):
+        return {k: _typed(v) for k, v in x.items()}
+    if isinstance(x, (list, tuple)):
+        return [type(x).__name__] + [_typed(v) for v in x]
+    return (type(x).__name__, repr(x))
+
+
 def _outcome(fn):
     try:
         return {"ok": fn()}, None
@@ -102,8 +111,16 @@ def pytest_configure(config):
             if expected is not None:
                 if "ok" in got and "ok" in expected:
                     equal = got["ok"] == expected["ok"]
+                    typed_only = equal and _typed(got["ok"]) != _typed(expected["ok"])
                     what = None
-                    if not equal:
+                    if typed_only:
+                        equal = False
+                        d = _first_diff(_typed(got["ok"]), _typed(expected["ok"]))
+                        what = "%s of %r on platform %r is %r, recomputed from scratch %r (equal for Python, not the " \
+                               "same value)" % (".".join(map(str, d[0])) if d else "?", comp_id,
+                                                kw.get("platform") or self._platform, d[1] if d else None,
+                                                d[2] if d else None)
+                    elif not equal:
                         d = _first_diff(got["ok"], expected["ok"])
                         wrecked = "WRECKED" in json.dumps(got["ok"], default=repr)
                         what = "%s of %r on platform %r is %r, recomputed from scratch %r%s" % (
